@@ -15,6 +15,7 @@ choices must reproduce the observed result up to reference numbering and uuid4 v
 import itertools
 import math
 import random
+import signal
 from copy import deepcopy
 
 from golem.core.dag.graph_verifier import GraphVerifier
@@ -43,6 +44,50 @@ CROSSOVERS = ['subtree_crossover', 'one_point_crossover', 'exchange_edges_crosso
 ADVICE = {'forbidden': 'AForbidden', 'node_only': 'ANodeOnly', 'node_rewire': 'ARewire',
           'with_direct_children': 'AWithChildren', 'with_parents': 'AWithParents'}
 TYPES = ['a', 'b', 'c']
+
+
+CALL_TIMEOUT_S = 30
+
+
+class CallTimeout(Exception):
+    pass
+
+
+def _alarm(signum, frame):
+    raise CallTimeout('no answer within %d s' % CALL_TIMEOUT_S)
+
+
+def guarded(fn):
+    """run fn(); a call that does not come back is reported like an exception ("returns")"""
+    old = signal.signal(signal.SIGALRM, _alarm)
+    signal.alarm(CALL_TIMEOUT_S)
+    try:
+        return fn()
+    finally:
+        signal.alarm(0)
+        signal.signal(signal.SIGALRM, old)
+
+
+def py_wellformed(g):
+    """python-side sanity check of a graph used as crossover INPUT (premutated copies)"""
+    ids = [id(n) for n in g.nodes]
+    if not ids or len(set(ids)) != len(ids) or len({n.uid for n in g.nodes}) != len(ids):
+        return False
+    for n in g.nodes:
+        ps = [id(p) for p in n.nodes_from]
+        if len(set(ps)) != len(ps) or any(p not in ids for p in ps):
+            return False
+    color = {}
+
+    def dfs(n):
+        color[id(n)] = 1
+        for p in n.nodes_from:
+            c = color.get(id(p), 0)
+            if c == 1 or (c == 0 and dfs(p)):
+                return True
+        color[id(n)] = 2
+        return False
+    return not any(color.get(id(n), 0) == 0 and dfs(n) for n in g.nodes)
 
 
 _LAB = {}
@@ -301,7 +346,7 @@ def run_mutation_case(spec):
     raised = None
     res = None
     try:
-        res = f(g, requirements=req, graph_gen_params=ggp, parameters=params)
+        res = guarded(lambda: f(g, requirements=req, graph_gen_params=ggp, parameters=params))
     except Exception as ex:  # "without raising"
         raised = '%s: %s' % (type(ex).__name__, str(ex)[:120])
     # uids of factory products are known to the harness before it looks at the result
@@ -329,7 +374,11 @@ def run_mutation_case(spec):
         obs = '(OOk %s %s)' % (c_heap(ha), c_nats(ga))
         info['changed'] = (ga != gb) or any(ha[r] != hb[r] for r in gb)
         info['n_after'] = len(ga)
-        cands = infer_mutation(spec, reg, fac, adv, gb, hb, ga, ha, parents_b, uid_ref, res)
+        try:
+            cands = infer_mutation(spec, reg, fac, adv, gb, hb, ga, ha, parents_b, uid_ref, res)
+        except Exception as ex:   # the observation does not fit any choice vector: fails closed
+            cands = []
+            info['inference_failed'] = '%s: %s' % (type(ex).__name__, ex)
     info['cands'] = len(cands)
     term = '(%s, %s, (%s, %s), %s, %s)' % (KIND[fn], c_nats(range(known)), c_heap(hb), c_nats(gb),
                                           '[' + '; '.join(cands) + ']', obs)
@@ -441,6 +490,10 @@ def run_crossover_case(spec):
     fn = spec['fn']
     g1 = build(spec['par'], spec['labels'])
     g2 = make_second(spec, g1)
+    if not py_wellformed(g2):
+        # the built-in mutation that prepared the relative returned a broken graph: that is a C17
+        # violation by itself (the mutation stream reports it too); crossovers are not run on it
+        return None, {'raised': None, 'changed': True, 'n': len(g1.nodes), 'cands': None, 'premut_bad': True}
     random.seed(spec['seed'])
     reg = Reg()
     b1 = [reg.r(n) for n in g1.nodes]
@@ -451,7 +504,7 @@ def run_crossover_case(spec):
     f = getattr(cx, fn)
     raised = None
     try:
-        r1, r2 = f(g1, g2, max_depth=spec['md'])
+        r1, r2 = guarded(lambda: f(g1, g2, max_depth=spec['md']))
     except Exception as ex:
         raised = '%s: %s' % (type(ex).__name__, str(ex)[:120])
     info = {'raised': raised, 'changed': False, 'n': len(b1) + len(b2)}
@@ -465,7 +518,11 @@ def run_crossover_case(spec):
         obs = '(COk %s %s %s)' % (c_heap(ha), c_nats(a1), c_nats(a2))
         info['changed'] = a1 != b1 or a2 != b2 or any(ha[r] != hb[r] for r in b1 + b2)
         info['dup_uid'] = any(len({n.uid for n in r.nodes}) != len(r.nodes) for r in (r1, r2))
-        cands = infer_crossover(fn, b1, b2, hb, a1, a2, ha, parents_b)
+        try:
+            cands = infer_crossover(fn, b1, b2, hb, a1, a2, ha, parents_b)
+        except Exception as ex:   # fails closed (an empty candidate list is a disagreement)
+            cands = [] if fn != 'subgraph_crossover' else None
+            info['inference_failed'] = '%s: %s' % (type(ex).__name__, ex)
     info['cands'] = None if cands is None else len(cands)
     term = '(%s, (%s, (%s, %s)), %s, %s)' % (c_nats(range(known)), c_heap(hb), c_nats(b1), c_nats(b2),
                                              '[' + '; '.join(cands or []) + ']', obs)
@@ -581,6 +638,11 @@ def evaluate(ctx, group, kind, specs):
     terms, metas, term_of = [], [], {}
     for spec in specs:
         term, info = (run_mutation_case if kind == 'mut' else run_crossover_case)(spec)
+        if term is None:
+            ctx.count(group, key=repr(sorted(spec.items())), nontrivial=False, fn=spec['fn'], premutation='ill-formed')
+            ctx.violate(group, {'kind': kind, 'spec': spec, 'info': info},
+                        'the built-in mutation %s applied to a deepcopy returned an ill-formed or cyclic graph' % spec['premut'])
+            continue
         terms.append(term)
         metas.append((spec, info))
         term_of[id(spec)] = term
